@@ -26,6 +26,8 @@ EncBad(ev) ==
  \o (IF ev.b64_back_cb.res = "ok" /\ ev.b64_back_cb.v.ret = n /\ ev.b64_back_cb.v.buf = d THEN <<>> ELSE <<"base64_decode(buffer) of encoding">>)
  \o (IF ev.b64_size_null.res = "ok" /\ ev.b64_size_null.v.ret = n /\ ev.hex_size_null.res = "ok" /\ ev.hex_size_null.v.ret = n
      THEN <<>> ELSE <<"size for null output">>)
+ \o (IF \A k \in 1..Len(ev.hex_cb_al) : ev.hex_cb_al[k].ret = n /\ ev.hex_cb_al[k].buf = d THEN <<>> ELSE <<"hex_decode(buffer at every alignment) of encoding">>)
+ \o (IF \A k \in 1..Len(ev.b64_cb_al) : ev.b64_cb_al[k].ret = n /\ ev.b64_cb_al[k].buf = d THEN <<>> ELSE <<"base64_decode(buffer at every alignment) of encoding">>)
 
 (* C15: acceptance, return values, bytes written *)
 DecBad(ev) ==
